@@ -152,7 +152,9 @@ func (r *Region) open(blob []byte) ([]byte, error) {
 	return g.Open(nil, rest[:12], rest[12:], []byte(r.ARN))
 }
 
-func (r *Region) owns(keyID string) bool { return keyID == r.ARN || (r.Alias != "" && keyID == r.Alias) }
+func (r *Region) owns(keyID string) bool {
+	return keyID == r.ARN || (r.Alias != "" && keyID == r.Alias)
+}
 
 // ctxErr reports a request whose context is already done the way the AWS SDKs do (they do not send it).
 func ctxErr(ctx context.Context) error {
